@@ -408,6 +408,8 @@ func runC06(c *core.Ctx) {
 	checkReaderSkipsWholeBodies(c, "R6.15")
 	c.Rule("R6.16", "a relay is visible to other client connections only once it has a connection: the registry lock is released, after the registration, only behind the wait for the goroutine that adds the first connection", 1)
 	checkRelayPublishedReady(c, "R6.16")
+	c.Rule("R6.18", "the pool reader addresses a response with the Key, Opaque and quiet flag recorded in the caller's request handle, never with fields of the backend's reply", 6)
+	checkReaderAddressesReplies(c, "R6.18")
 	c.Rule("R6.12", "a value the pool hands to a caller lives in memory of its own: allocated for that reply, never a view into the connection's read buffer (Peek / ReadSlice) and never a buffer reused for the next reply", 4)
 	checkFreshValueBuffers(c, "R6.12", relBatched)
 	c.Rule("R6.11", "every single-reply method of the batching handler returns the error (and response) the pool's request function gave it", 8)
@@ -421,7 +423,7 @@ func runC06(c *core.Ctx) {
 		c.Undecided("R6.9", "reader#bookkeeping-at-hand-over", "-", "reader not found")
 	}
 	c.Share(map[string]string{"R13.16": "R6.14"}, runC13) // leftover requests in a reused batch buffer are executed again and answered under opaques nobody waits for
-	c.Share(map[string]string{"R14.3": "R6.8"}, runC14) // a batch buffer used after it went back to the pool is overwritten by another connection's batch: callers' commands reach the backend as someone else's
+	c.Share(map[string]string{"R14.3": "R6.8", "R14.14": "R6.17"}, runC14) // a batch buffer used after it went back to the pool is overwritten by another connection's batch: callers' commands reach the backend as someone else's
 	c.Rule("R6.5", "state that suppresses hand-back in the retrying multi-key functions (the 'this attempt failed' flag) is reset for every attempt: it is never carried from one retry into the next", 2)
 	for _, fn := range submitters(c) {
 		if fn.Signature.Results().Len() > 0 {
